@@ -64,7 +64,8 @@ theorem string_symbol_never_equal (s t : String) (p : Option Pos) :
 /-- a keyword is a string with the marker prefix: it equals a string only if the string is that keyword -/
 theorem keyword_string_equal_iff (s t : String) :
     equalQ (Val.kw s) (.str t) = true ↔ t = String.ofList (kwMarker :: s.toList) := by
-  simp [Val.kw, equalQ, eq_comm]
+  simp only [Val.kw, equalQ, beq_iff_eq]
+  exact eq_comm
 
 /-- … nil, false, the empty list and zero are pairwise different -/
 theorem nil_false_empty_zero_distinct (p : Option Pos) :
